@@ -526,3 +526,72 @@ pub fn streamed_files_answer(ty: u64, ops: &[Op], bytes: &[u8], expected: &str, 
     }
     Ok(())
 }
+
+
+/// OTHER WAYS TO BUILD THE SAME CONTENT: every front end that can run the calls (raw insert loop, single
+/// calls, extend_iter / extend_stream, MapBuilder / SetBuilder, from_iter), node caches that evict all the
+/// time (1x1, 2x2, 3x3 through the geometry hook), the same accepted calls with rejected calls in between
+/// (stragglers and duplicates whose errors the caller ignores), for sets every key added twice, and the
+/// writers of [streamed_files_answer]. Where such a build has other bytes than the primary build, `answer`
+/// is asked of it and must equal `expected`: what a query returns depends on the accepted keys and values
+/// alone. Returns the first disagreement.
+pub fn alt_builds_answer(ty: u64, ops: &[Op], bytes: &[u8], expected: &str, answer: &dyn Fn(&Fst<Vec<u8>>) -> String) -> Result<(), String> {
+    use crate::core::{applicable_front_ends, dcols, drows, exec_build};
+    let ask = |name: &str, file: Option<Vec<u8>>| -> Result<(), String> {
+        let file = match file {
+            None => return Err(format!("{}: the build does not finish", name)),
+            Some(f) => f,
+        };
+        if file == bytes {
+            return Ok(());
+        }
+        let got = std::panic::catch_unwind(std::panic::AssertUnwindSafe(|| match Fst::new(file) {
+            Ok(f) => answer(&f),
+            Err(e) => format!("does not open: {}", e),
+        }))
+        .unwrap_or_else(|_| "PANIC".into());
+        if got != expected {
+            let cut = |t: &str| t.chars().take(300).collect::<String>();
+            return Err(format!("{}: the file answers {} but the primary build {}", name, cut(&got), cut(expected)));
+        }
+        Ok(())
+    };
+    // front ends
+    for (sem, fe) in applicable_front_ends(ops, true, ty) {
+        let o = exec_build(sem, fe, ty, drows(), dcols(), ops);
+        if o.results.iter().all(|r| r == "ok") {
+            ask(&format!("built through {}/{}", sem, fe), o.bytes)?;
+        }
+    }
+    // evicting caches
+    if crate::hooks::available() {
+        for (r, c) in [(1usize, 1usize), (2, 2), (3, 3)] {
+            let o = exec_build("extend", "raw_loop", ty, r, c, ops);
+            ask(&format!("built with a {}x{} node cache", r, c), o.bytes)?;
+        }
+    }
+    // rejected calls in between
+    if ops.len() >= 3 {
+        let mut dirty: Vec<Op> = vec![];
+        for (i, o) in ops.iter().enumerate() {
+            dirty.push(o.clone());
+            if i >= 2 && i % 2 == 0 && ops[i - 2].key() < o.key() && ops[i - 1].key() < o.key() {
+                dirty.push(ops[i - 2].clone());
+                dirty.push(ops[i - 1].clone());
+                if i % 4 == 0 {
+                    dirty.push(ops[i - 2].clone());
+                }
+            }
+        }
+        let o = exec_build("calls", "raw", ty, drows(), dcols(), &dirty);
+        ask("built with rejected calls in between (errors ignored)", o.bytes)?;
+    }
+    // sets: every key added twice
+    if !ops.is_empty() && ops.iter().all(|o| matches!(o, Op::Add(..))) {
+        let twice: Vec<Op> = ops.iter().flat_map(|o| [o.clone(), o.clone()]).collect();
+        let o = exec_build("calls", "raw", ty, drows(), dcols(), &twice);
+        ask("built with every key added twice", o.bytes)?;
+    }
+    xcount("queries_on_alternative_builds");
+    streamed_files_answer(ty, ops, bytes, expected, answer)
+}
